@@ -15,6 +15,7 @@ structure Weak (st : St) (r : Ret) : Prop where
   depth : r.st.depth = st.depth
   le : st.cur.pos ≤ r.st.cur.pos
   inb : st.cur.pos ≤ st.endp → r.st.cur.pos ≤ st.endp
+  noob : st.cur.pos ≤ st.endp → st.oob = false → r.st.oob = false
 
 /-- What every invocation guarantees about the input state. -/
 structure Good (m : RMode) (st : St) (r : Ret) : Prop extends Weak st r where
@@ -23,7 +24,7 @@ structure Good (m : RMode) (st : St) (r : Ret) : Prop extends Weak st r where
 def GoodRec (rec : Rec) : Prop := ∀ j a m env st r, rec j a m env st = some r → Good m st r
 
 theorem Weak.refl (st : St) (res : Res) (raw surv : List Ev) : Weak st ⟨res, st, raw, surv⟩ :=
-  ⟨rfl, rfl, Nat.le_refl _, id⟩
+  ⟨rfl, rfl, Nat.le_refl _, id, fun _ h => h⟩
 
 theorem Weak.trans {st r1 r2} (h1 : Weak st r1) (h2 : Weak r1.st r2) : Weak st r2 where
   endp := by rw [h2.endp, h1.endp]
@@ -32,6 +33,7 @@ theorem Weak.trans {st r1 r2} (h1 : Weak st r1) (h2 : Weak r1.st r2) : Weak st r
   inb := fun hv => by
     have := h2.inb (by rw [h1.endp]; exact h1.inb hv)
     rw [h1.endp] at this; exact this
+  noob := fun hv ho => h2.noob (by rw [h1.endp]; exact h1.inb hv) (h1.noob hv ho)
 
 @[simp] theorem prepend_res (raw surv : List Ev) (r : Ret) : (r.prepend raw surv).res = r.res := rfl
 @[simp] theorem prepend_st (raw surv : List Ev) (r : Ret) : (r.prepend raw surv).st = r.st := rfl
@@ -42,11 +44,12 @@ theorem Weak.trans {st r1 r2} (h1 : Weak st r1) (h2 : Weak r1.st r2) : Weak st r
   unfold Ret.dropOnFail; split <;> rfl
 
 theorem Weak.prepend {st r} (raw surv : List Ev) (h : Weak st r) : Weak st (r.prepend raw surv) :=
-  ⟨h.endp, h.depth, h.le, h.inb⟩
+  ⟨h.endp, h.depth, h.le, h.inb, h.noob⟩
 
 /-- Only the state matters. -/
 theorem Weak.congr {st r r'} (h : Weak st r) (hs : r'.st = r.st) : Weak st r' :=
-  ⟨by rw [hs]; exact h.endp, by rw [hs]; exact h.depth, by rw [hs]; exact h.le, by rw [hs]; exact h.inb⟩
+  ⟨by rw [hs]; exact h.endp, by rw [hs]; exact h.depth, by rw [hs]; exact h.le, by rw [hs]; exact h.inb,
+   by rw [hs]; exact h.noob⟩
 
 theorem Good.congr {m st r r'} (h : Good m st r) (hs : r'.st = r.st) (hr : r'.res = r.res) : Good m st r' :=
   ⟨h.toWeak.congr hs, by rw [hs, hr]; exact h.failCur⟩
@@ -69,7 +72,7 @@ theorem guard_good {g m st r} (hg : g = .required ∨ g = m) (h : Weak st r) :
     Good m st (guardRestore g st.cur r) := by
   unfold guardRestore
   split
-  · exact ⟨⟨h.endp, h.depth, Nat.le_refl _, id⟩, fun _ _ => rfl⟩
+  · exact ⟨⟨h.endp, h.depth, Nat.le_refl _, id, h.noob⟩, fun _ _ => rfl⟩
   · rename_i hc
     refine ⟨h, ?_⟩
     intro hf hm
@@ -84,7 +87,7 @@ theorem guard_req_drop_good {m st r} (h : Weak st r) : Good m st (guardRestore .
   (guard_good (Or.inl rfl) h).dropOnFail
 
 theorem alwaysRestore_good {m st r} (h : Weak st r) : Good m st (alwaysRestore st.cur r) :=
-  ⟨⟨h.endp, h.depth, Nat.le_refl _, id⟩, fun _ _ => rfl⟩
+  ⟨⟨h.endp, h.depth, Nat.le_refl _, id, h.noob⟩, fun _ _ => rfl⟩
 
 section helpers
 variable {rec : Rec} (hrec : GoodRec rec)
@@ -269,12 +272,14 @@ theorem loopUntil1_weak (cx : Ctx) (a : AMode) (env : Env) (cond : Nat) :
             simp only [Option.some.injEq] at h; subst h
             have g2 := ih _ _ h2
             have gb : Weak r1.st ⟨.ok, bump cx r1.st 1, [], []⟩ := by
-              refine ⟨by simp, by simp, by simp, ?_⟩
-              intro hv
               have hne' : r1.st.cur.pos ≠ r1.st.endp := by
                 simpa [St.empty] using hne
-              simp only [bump_pos]
-              omega
+              refine ⟨by simp, by simp, by simp, ?_, ?_⟩
+              · intro hv
+                simp only [bump_pos]
+                omega
+              · intro hv ho
+                rw [bump_noob _ _ _ (by omega)]; exact ho
             exact ((g1.trans gb).trans g2).prepend _ _
 
 theorem loopUntil2_weak (a : AMode) (env : Env) (cond b : Nat) :
@@ -333,6 +338,32 @@ theorem loopStarStrict_weak (a : AMode) (env : Env) (c rest : Nat) :
           · simp only [Option.some.injEq] at h; subst h
             exact (g1.trans g2).prepend _ _
 
+theorem rematchAll_noob (a : AMode) (env : Env) (saved : Cursor) :
+    ∀ (rs : List Nat) (st : St) (r : Ret), rematchAll rec a env saved rs st = some r →
+      saved.pos ≤ st.endp → st.oob = false → r.st.oob = false := by
+  intro rs
+  induction rs with
+  | nil =>
+    intro st r h _ ho
+    simp only [rematchAll, Option.some.injEq] at h; subst h; exact ho
+  | cons c cs ih =>
+    intro st r h hv ho
+    simp only [rematchAll] at h
+    split at h
+    · exact absurd h (by simp)
+    · rename_i r1 h1
+      have g1 := hrec _ _ _ _ _ _ h1
+      have ho1 : r1.st.oob = false := g1.noob (by simpa using hv) (by simpa using ho)
+      split at h
+      · split at h
+        · exact absurd h (by simp)
+        · rename_i r2 h2
+          simp only [Option.some.injEq] at h; subst h
+          have he : r1.st.endp = st.endp := by simpa using g1.endp
+          exact ih _ r2 h2 (by rw [he]; exact hv) ho1
+      · simp only [Option.some.injEq] at h; subst h
+        exact ho1
+
 end helpers
 
 /-- Every combinator body keeps the invariant, given that its sub-rule calls do. -/
@@ -343,7 +374,7 @@ theorem body_good {rec : Rec} (hrec : GoodRec rec) (cx : Ctx) (k : Nat) (kind : 
     simp only [body, Option.some.injEq] at h
     subst h
     have f := atomStep_frame cx atm st
-    refine ⟨⟨f.endp, f.depth, f.mono, f.inb⟩, ?_⟩
+    refine ⟨⟨f.endp, f.depth, f.mono, f.inb, f.noob⟩, ?_⟩
     intro hf _
     apply f.fail_cur
     cases hb : (atomStep cx atm st).1 <;> simp_all
@@ -392,7 +423,7 @@ theorem body_good {rec : Rec} (hrec : GoodRec rec) (cx : Ctx) (k : Nat) (kind : 
     obtain ⟨r0, h0, rfl⟩ := h
     have g := (hrec _ _ _ _ _ _ h0)
     have ga : Good m st (alwaysRestore st.cur r0) := alwaysRestore_good g.toWeak
-    split <;> exact ⟨⟨ga.endp, ga.depth, Nat.le_refl _, id⟩, fun _ _ => rfl⟩
+    split <;> exact ⟨⟨ga.endp, ga.depth, Nat.le_refl _, id, ga.noob⟩, fun _ _ => rfl⟩
   | until1 cond =>
     simp only [body, Option.map_eq_some_iff] at h
     obtain ⟨r0, h0, rfl⟩ := h
@@ -489,7 +520,10 @@ theorem body_good {rec : Rec} (hrec : GoodRec rec) (cx : Ctx) (k : Nat) (kind : 
           · rename_i r2 h2
             simp only [Option.some.injEq] at h
             subst h
-            exact guard_req_drop_good ⟨g1.endp, g1.depth, g1.le, g1.inb⟩
+            have hin := rematchAll_noob hrec a env st.cur rs _ r2 h2
+            refine guard_req_drop_good ⟨g1.endp, g1.depth, g1.le, g1.inb, ?_⟩
+            intro hv ho
+            exact hin (by simpa using g1.le) (by simpa using g1.noob hv ho)
         · simp only [Option.some.injEq] at h
           subst h
           exact guard_req_drop_good g1
@@ -630,32 +664,74 @@ theorem guardRestore_optional (c : Cursor) (r : Ret) : guardRestore .optional c 
 
 /-- The match.hpp protocol keeps the invariant: whether the rewinding is done by the rule
     body (no action: `M` is passed on) or by `match()` itself (action present: guard `required`). -/
+theorem nodeCore_good {rec : Rec} (hrec : GoodRec rec) (cx : Ctx) (k i : Nat) (nd : Node) (a : AMode) (m : RMode)
+    (env : Env) (st : St) (r : Ret) (h : nodeCore cx rec k i nd a m env st = some r) : Good m st r := by
+  unfold nodeCore at h
+  split at h
+  · exact body_good hrec cx k _ _ _ _ _ _ h
+  · simp only [Option.map_eq_some_iff] at h
+    obtain ⟨r0, h0, rfl⟩ := h
+    have gb := body_good hrec cx k _ _ _ _ _ _ h0
+    refine Good.congr (r := guardRestore (if useGuard a (cx.actOf env i nd) = true then .required else .optional) st.cur
+      (afterBody cx i a (cx.actOf env i nd) st.cur r0)) ?_ (by simp [guardRestore]; split <;> simp) (by simp)
+    have w : Weak st (afterBody cx i a (cx.actOf env i nd) st.cur r0) := gb.toWeak.congr (by simp)
+    cases hug : useGuard a (cx.actOf env i nd) with
+    | true => exact guard_good (Or.inl (by simp)) w
+    | false =>
+      simp only [hug] at gb
+      simp only [Bool.false_eq_true, if_false, guardRestore_optional]
+      refine ⟨w, ?_⟩
+      intro hf hm
+      rcases afterBody_fail _ _ _ _ _ _ hf with h1 | h1
+      · simpa using gb.failCur h1 hm
+      · simp [hug] at h1
+
+theorem limitDepthCall_good {cx : Ctx} {core : St → Out} {m : RMode} (hcore : ∀ st r, core st = some r → Good m st r)
+    (n : Nat) (st : St) (r : Ret) (h : limitDepthCall cx core n st = some r) : Good m st r := by
+  unfold limitDepthCall at h
+  split at h
+  · simp only [Option.some.injEq] at h; subst h
+    exact Good.ofWeakNoFail (Weak.refl _ _ _ _) (by simp)
+  · simp only [Option.map_eq_some_iff] at h
+    obtain ⟨r0, h0, rfl⟩ := h
+    have g := hcore _ _ h0
+    exact ⟨⟨g.endp, by simp [g.depth], g.le, g.inb, g.noob⟩, g.failCur⟩
+
+theorem limitBytesCall_good {cx : Ctx} {core : St → Out} {m : RMode} (hcore : ∀ st r, core st = some r → Good m st r)
+    (n : Nat) (st : St) (r : Ret) (h : limitBytesCall cx core n st = some r) : Good m st r := by
+  unfold limitBytesCall at h
+  simp only [Option.map_eq_some_iff] at h
+  obtain ⟨r0, h0, rfl⟩ := h
+  have g := hcore _ _ h0
+  have hw : Weak st ({ r0 with st := { r0.st with endp := st.endp } } : Ret) := by
+    refine ⟨rfl, g.depth, g.le, ?_, ?_⟩
+    · intro hv
+      have := g.inb (by simp only [St.avail]; omega)
+      simp only [St.avail] at this
+      simp only
+      omega
+    · intro hv ho
+      exact g.noob (by simp only [St.avail]; omega) ho
+  split
+  · exact Good.ofWeakNoFail (hw.congr rfl) (by simp)
+  · exact ⟨hw, fun hf hm => g.failCur hf hm⟩
+
 theorem nodeCall_good {rec : Rec} (hrec : GoodRec rec) (cx : Ctx) (k i : Nat) (a : AMode) (m : RMode)
     (env : Env) (st : St) (r : Ret) (h : nodeCall cx rec k i a m env st = some r) : Good m st r := by
   unfold nodeCall at h
   split at h
   · exact absurd h (by simp)
   · rename_i nd _
-    split at h
-    · simp only [Option.map_eq_some_iff] at h
-      obtain ⟨r0, h0, rfl⟩ := h
-      exact (body_good hrec cx k _ _ _ _ _ _ h0).congr (by simp) (by simp)
-    · simp only [Option.map_eq_some_iff] at h
-      obtain ⟨r0, h0, rfl⟩ := h
-      have gb := body_good hrec cx k _ _ _ _ _ _ h0
-      refine Good.congr (r := guardRestore (if useGuard a (cx.actOf env i nd) = true then .required else .optional) st.cur
-        (afterBody cx i a (cx.actOf env i nd) st.cur r0)) ?_ (by simp [guardRestore]; split <;> simp) (by simp)
-      have w : Weak st (afterBody cx i a (cx.actOf env i nd) st.cur r0) := gb.toWeak.congr (by simp)
-      cases hug : useGuard a (cx.actOf env i nd) with
-      | true => exact guard_good (Or.inl (by simp)) w
-      | false =>
-        simp only [hug] at gb
-        simp only [Bool.false_eq_true, if_false, guardRestore_optional]
-        refine ⟨w, ?_⟩
-        intro hf hm
-        rcases afterBody_fail _ _ _ _ _ _ hf with h1 | h1
-        · simpa using gb.failCur h1 hm
-        · simp [hug] at h1
+    simp only [Option.map_eq_some_iff] at h
+    obtain ⟨r0, h0, rfl⟩ := h
+    refine Good.congr (r := r0) ?_ (by simp) (by simp)
+    split at h0
+    · exact nodeCore_good hrec cx k i nd a m env st r0 h0
+    · exact hrec _ _ _ _ _ _ h0
+    · exact nodeCore_good hrec cx k i nd _ m env st r0 h0
+    · exact nodeCore_good hrec cx k i nd _ m env st r0 h0
+    · exact limitDepthCall_good (fun st r h => nodeCore_good hrec cx k i nd a m env st r h) _ _ _ h0
+    · exact limitBytesCall_good (fun st r h => nodeCore_good hrec cx k i nd a m env st r h) _ _ _ h0
 
 theorem run_good (cx : Ctx) : ∀ n, GoodRec (run cx n) := by
   intro n
